@@ -227,7 +227,7 @@ theorem step_noattr (dense : Bool) (nm : String) (h : Heap) (c : Cont) (hc : c.a
   | clear => simp only [srcStep, getAttribute_none nm h hc, step, hattr]; exact ⟨trivial, trivial, Or.inl hc⟩
   | asArray => simp only [srcStep, getAttribute_none nm h hc, step, hattr]; exact ⟨trivial, trivial, Or.inl hc⟩
 
-theorem cont_eta (c : Cont) : c = { data := c.data, attr := c.attr } := by cases c; rfl
+theorem cont_eta (c : Cont) : c = { data := c.data, attr := c.attr, id := c.id } := by cases c; rfl
 
 /-- the attribute object built by `create_attribute` as written: class tag, storage kind and arity as asked -/
 theorem createAttribute_good (dense : Bool) (nm : String) (ty : Ty) (k : Nat) (dv : Option Scalar) (h : Heap) (c : Cont)
@@ -307,18 +307,20 @@ theorem grow_some (dense : Bool) (nm : String) (h : Heap) (c : Cont) (a : Self) 
     (hcls : a.cls = (if dense then Cls.dense else Cls.sparse)) (hk : 1 ≤ a.elemsize) (extra : List Nat) :
     ∃ h' c', (match forAttrs h [(nm, a)] (dispatchExpand extra.length) with
         | .error e => Except.error e
-        | .ok t1 => (Except.ok ((), t1.1, ({ data := c.data ++ extra, attr := t1.2 } : Cont)) : Except Err (Unit × Heap × Cont)))
+        | .ok t1 => (Except.ok ((), t1.1, ({ c with data := c.data ++ extra, attr := t1.2 } : Cont)) : Except Err (Unit × Heap × Cont)))
         = .ok ((), h', c') ∧ Good dense nm c' ∧ toState h' c' nm = grow (toState h c nm) extra.length := by
   obtain ⟨h', a', e1, e2, e3, e4⟩ := dispatchExpand_good extra.length h a hok
   have hb := toState_grow h c.data nm a hok extra
   have hres : (match forAttrs h [(nm, a)] (dispatchExpand extra.length) with
         | .error e => Except.error e
-        | .ok t1 => (Except.ok ((), t1.1, ({ data := c.data ++ extra, attr := t1.2 } : Cont)) : Except Err (Unit × Heap × Cont)))
-        = .ok ((), h', { data := c.data ++ extra, attr := [(nm, a')] }) := by
+        | .ok t1 => (Except.ok ((), t1.1, ({ c with data := c.data ++ extra, attr := t1.2 } : Cont)) : Except Err (Unit × Heap × Cont)))
+        = .ok ((), h', { c with data := c.data ++ extra, attr := [(nm, a')] }) := by
     simp [forAttrs, e1]
   refine ⟨h', _, hres, Or.inr ⟨a', rfl, e2, by rw [e3]; exact hcls, by rw [e4]; exact hk⟩, ?_⟩
   simp only [forAttrs, e1, absC, Except.ok.injEq] at hb
-  rw [hb]
+  have hid : toState h' { c with data := c.data ++ extra, attr := [(nm, a')] } nm =
+      toState h' { data := c.data ++ extra, attr := [(nm, a')] } nm := rfl
+  rw [hid, hb]
   congr 1
   simp [toState, hc]
 
@@ -475,6 +477,25 @@ example :
      | .ok (slf, h', c') => (slf.cls, slf.type, slf.elemsize, slf.nElem, cellMat h' slf.data.asRef, cellMat h' 0, c'.attr.length)
      | .error _ => (.sparse, .bool, 0, 0, [], [], 0)) = (.dense, .int, 1, 2, [[.i 9], [.i 0]], [[.i 9], [.i 0]], 1) := by
   rfl
+
+/-- `Type.dtype` as written: every attribute type is stored in a dtype that holds exactly the values of that type — what the
+model's "stored after widening to the attribute's type" (`castTo`) relies on; two different types never share a storage dtype -/
+theorem typeDtype_bridge (t : Ty) : (typeDtype t).holds t = true ∧ ∀ t', (typeDtype t).holds t' = true → t' = t := by
+  cases t <;> simp [typeDtype, DType.holds]
+
+/-- the two container constructors as written: `DataContainer()` is the empty container of the model, `DataContainer(data)` has
+`len(data)` elements and no attribute; an `attributes` dict handed over is adopted as it is -/
+theorem contInit_bridge (h : Heap) (c0 : Cont) (data : Option (List Nat)) (attrs : Option (List (String × Self))) (id : String) (nm : String) :
+    ∃ c, contInit data attrs id h c0 = .ok ((), h, c) ∧ c.data = data.getD [] ∧ c.attr = attrs.getD [] ∧ c.id = id ∧
+      (attrs = none → toState h c nm = { (init (data.getD []).length) with heap := h }) := by
+  cases data <;> cases attrs <;> simp [contInit, baseContInit, toState, init]
+
+/-- … and the harness's start state (a fresh container, then `n0` appends) is `srcInit n0` up to the element values -/
+theorem srcInit_by_code (n0 : Nat) (nm : String) :
+    ∃ c, contInit none none "t" [] {} = .ok ((), [], c) ∧ c.attr = [] ∧ c.data = [] ∧
+      absSt nm ([], { c with data := List.replicate n0 0 }) = init n0 := by
+  refine ⟨{ data := [], attr := [], id := "t" }, by simp [contInit, baseContInit], rfl, rfl, ?_⟩
+  simp [absSt, toState, init]
 
 /-- **the step bridge**: one operation executed by the translated code = one step of the hand model, seen through `toState`:
 same state, same observation, and the reached container is again one the bridge applies to -/
